@@ -17,7 +17,8 @@ pub fn many_hunks_tree(n: usize) -> (Opts, Tree) {
 }
 
 /// Files whose blocks are several MiB: one 6 MiB, two identical 5.5 MiB, one of 1 MiB + 7
-/// bytes, one small. With the default options every file is one block.
+/// bytes, two at the default small-file cap (combined), one of 20 MiB + 5 (two blocks with
+/// the default block size), one small.
 pub fn big_blocks_tree() -> (Opts, Tree) {
     let mut t = Tree::empty_root(Meta { mode: 0o755, ..plain_meta() });
     let m = plain_meta();
@@ -26,6 +27,10 @@ pub fn big_blocks_tree() -> (Opts, Tree) {
         ("dup-a", 4, (11u32 << 19) + 3),
         ("dup-b", 4, (11u32 << 19) + 3),
         ("mib-plus-7", 5, (1u32 << 20) + 7),
+        // around the default small-file cap (1 MiB) and over the default block size (20 MiB)
+        ("at-cap", 6, 1u32 << 20),
+        ("cap-minus-1", 7, (1u32 << 20) - 1),
+        ("over-default-block", 2, (20u32 << 20) + 5),
         ("small", 6, 100),
     ] {
         t.0.insert(format!("/{name}"), Node { kind: Kind::File { pool, len }, meta: m });
